@@ -87,7 +87,7 @@ def svn_table(attrs=('x',), prefix='p'):
     t = {}
     for s in SV_SUFFIXES:
         t['sequence-' + s] = {'f': 'sv', 'a': s}
-        t[prefix + '_' + s] = {'f': 'psv', 'a': s}
+        t[prefix + '_' + s] = {'f': 'psv', 'a': s, 'p': prefix}
     for a in attrs:
         t['sequence-var-' + a] = {'f': 'var', 'a': a}
         t['first-' + a] = {'f': 'first', 'a': a}
@@ -112,7 +112,7 @@ def compile_prog(prog):
         elif t == 'in':
             n['b'] = compile_prog(n['b'])
             n['e'] = compile_prog(n['e'])
-            n.pop('prefix', None)
+            n['pn'] = n.pop('prefix', 'p') if n.get('pre') else ''
             n.pop('pf', None)
         elif t == 'try':
             n['b'] = compile_prog(n['b'])
